@@ -3,6 +3,7 @@ package connprop
 import (
 	"context"
 	"fmt"
+	"net"
 	"runtime/debug"
 	"sort"
 	"strings"
@@ -40,13 +41,22 @@ type invocation struct {
 	id   int
 	addr string
 	ai   int // index of addr, -1 if it is not an address of the scenario
-	ch   chan bool
+	ch   chan int // scripted outcome: outOK, outErr, outClosed
 	// guarded by harness.mu
 	returned  bool
 	cancelled bool // returned because its context was cancelled
 	conn      *grpc.ClientConn
 	err       error
+	net       int        // how the transport dialer of conn behaves (netRefuse, netHang, netServe)
+	srvConns  []net.Conn // server side of the transports of conn that reached the in-bubble server
 }
+
+// scripted outcomes of the dial function
+const (
+	outOK     = 1
+	outErr    = 2
+	outClosed = 3 // a connection that the dial function has closed itself
+)
 
 const (
 	attInflight = iota
@@ -65,6 +75,7 @@ type attempt struct {
 	conn      *grpc.ClientConn
 	members   []*requester
 	forgotten bool // succeeded, every member released, closed
+	lastState connectivity.State // state of conn at the previous quiescent point
 }
 
 // requester is one Connection() call.
@@ -126,6 +137,11 @@ type harness struct {
 	curReq *requester
 	now    int // step being executed
 	auto   int // outcome given at once to a dial function invoked now (0: park)
+	// connections on which the scenario itself (a holder, an ex-holder or the dial
+	// function) called Close(); recorded before the call is made
+	xclosed map[*grpc.ClientConn]bool
+	srv     *grpc.Server // in-bubble server behind netServe, started on demand
+	lis     *pipeListener
 
 	// model; root goroutine only
 	reqs       []*requester
@@ -175,10 +191,10 @@ func (h *harness) dial(ctx context.Context, target string, opts ...grpc.DialOpti
 	if !ok {
 		ai = -1
 	}
-	inv := &invocation{id: len(h.invs), addr: target, ai: ai, ch: make(chan bool, 1)}
+	inv := &invocation{id: len(h.invs), addr: target, ai: ai, ch: make(chan int, 1)}
 	h.invs = append(h.invs, inv)
 	if h.auto != 0 {
-		inv.ch <- h.auto == 1
+		inv.ch <- h.auto
 	}
 	h.mu.Unlock()
 	var cc *grpc.ClientConn
@@ -191,12 +207,20 @@ func (h *harness) dial(ctx context.Context, target string, opts ...grpc.DialOpti
 		select {
 		case <-ctx.Done():
 			err, cancelled = ctx.Err(), true
-		case ok := <-inv.ch:
-			if ok {
+		case out := <-inv.ch:
+			if out != outErr {
 				// idle client: no network, state IDLE until Close makes it SHUTDOWN
 				// (the target string of the idle client is a harness constant: the
-				// spelling of the address is never parsed by gRPC)
-				cc, err = grpc.NewClient("passthrough:///c16", opts...)
+				// spelling of the address is never parsed by gRPC). Its transports are
+				// made by the harness (outside.go) once somebody calls Connect().
+				o := append(append([]grpc.DialOption(nil), opts...), grpc.WithContextDialer(func(ctx context.Context, _ string) (net.Conn, error) { return h.netDial(ctx, inv) }))
+				cc, err = grpc.NewClient("passthrough:///c16", o...)
+				if err == nil && out == outClosed {
+					h.mu.Lock()
+					h.xclosed[cc] = true
+					h.mu.Unlock()
+					cc.Close()
+				}
 			} else {
 				err = fmt.Errorf("scripted failure of dial #%d to %q", inv.id, target)
 			}
@@ -340,6 +364,8 @@ func (h *harness) exec(st Step) *verr {
 		return h.sub(st, func(s int) (string, *verr) { return h.doCancel(s, st) })
 	case "open":
 		return h.sub(st, func(s int) (string, *verr) { return h.doOpen(s, st) })
+	case "xclose", "xcon", "xreset", "xdrop", "tick":
+		return h.sub(st, func(s int) (string, *verr) { return h.doOutside(s, st) })
 	}
 	return newVerr("harness-error", "unknown step kind %q", st.K)
 }
@@ -446,8 +472,12 @@ func (h *harness) doAcq(s int, st Step) (string, *verr) {
 		r.cancelledAt, r.pre = s, true
 	}
 	cur := h.cur[ai]
+	// connections of this address that are handed out and not yet released by
+	// everybody: cur if it succeeded and, only after a replacement (which is
+	// accepted for a connection that the scenario closed, see below), older ones
+	live := h.liveGens(ai)
 	dialer := connection.DEFAULT
-	bad := st.B && cur == nil
+	bad := st.B && cur == nil && len(live) == 0
 	if bad {
 		dialer = "no-such-dialer"
 	}
@@ -533,46 +563,65 @@ func (h *harness) doAcq(s int, st Step) (string, *verr) {
 		return desc, newVerr("second-dial-in-flight", "step %d: one request for %s invoked the dial function %d times", s, addrName(ai), n)
 	}
 	switch {
-	case cur != nil:
-		if n > 0 && cur.state == attInflight {
+	case n == 1:
+		// a fresh dial: never while one is in flight, never while a connection of
+		// the address is held - unless every such connection was closed by the
+		// scenario itself (what the manager owes a requester then is not stated:
+		// the dead connection may be shared until its last release, or a fresh one
+		// dialled; either way the ref-count rules hold per hand-out)
+		if cur != nil && cur.state == attInflight {
 			return desc, newVerr("second-dial-in-flight", "step %d: the request of r%d invoked the dial function (dial #%d) while %s is still in flight", s, r.id, newInvs[0].id, h.attName(cur))
 		}
-		if n > 0 {
-			return desc, newVerr("redial-while-live", "step %d: the request of r%d invoked the dial function (dial #%d) although %s is registered for %s and has holders that did not release it", s, r.id, newInvs[0].id, h.connName(cur.conn), addrName(ai))
-		}
-		if refused {
-			h.label("acquire-with-cancelled-ctx-refused")
-			break
-		}
-		r.att = cur
-		cur.members = append(cur.members, r)
-		if cur.state == attInflight {
-			h.label("join-pending-dial")
-			h.mu.Lock()
-			if dialParked && (cur.inv == nil || (cur.inv.returned && cur.inv.err != nil)) {
-				h.label("join-during-failing-dial")
-				h.label("join-while-dial-failure-unpublished")
+		for _, t := range live {
+			if !h.isXclosed(t.conn) {
+				return desc, newVerr("redial-while-live", "step %d: the request of r%d invoked the dial function (dial #%d) although %s is registered for %s and has holders that did not release it", s, r.id, newInvs[0].id, h.connName(t.conn), addrName(ai))
 			}
-			if dialParked && cur.inv != nil && cur.inv.returned && cur.inv.err == nil {
-				h.label("join-while-dial-success-unpublished")
-			}
-			h.mu.Unlock()
-		} else {
-			h.label("join-live-connection")
+		}
+		if bad {
+			return desc, newVerr("unexpected-dial", "step %d: the request of r%d names an unknown dialer but the dial function was invoked", s, r.id)
+		}
+		t := h.newAttempt(ai, newInvs[0])
+		t.members = []*requester{r}
+		r.att = t
+		h.cur[ai] = t
+		switch {
+		case len(live) > 0:
+			h.label("outside:fresh-dial-while-scenario-closed-connection-is-still-held")
+		case strings.HasPrefix(h.lastEnd[ai], "the previous connection"):
+			h.label("redial-after-close")
+		case h.lastEnd[ai] != "":
+			h.label("redial-after-failed-dial")
+		}
+		if r.pre {
+			h.label("dial-started-with-cancelled-ctx")
 		}
 	case refused:
 		h.label("acquire-with-cancelled-ctx-refused")
 	case bad:
-		if n != 0 {
-			return desc, newVerr("unexpected-dial", "step %d: the request of r%d names an unknown dialer but the dial function was invoked", s, r.id)
-		}
 		t := h.newAttempt(ai, nil)
 		t.members = []*requester{r}
 		r.att = t
 		h.cur[ai] = t
 		h.label("unknown-dialer")
 	default:
-		if n != 1 {
+		// no dial: the request shares something that exists - the connection it
+		// was handed if it returned one that is held, else the pending dial or the
+		// registered connection
+		var join *attempt
+		if returned && r.conn != nil {
+			for _, t := range live {
+				if t.conn == r.conn {
+					join = t
+				}
+			}
+		}
+		if join == nil {
+			join = cur
+		}
+		if join == nil && len(live) > 0 {
+			join = live[len(live)-1]
+		}
+		if join == nil {
 			why := "no connection and no pending dial is registered for this address"
 			if h.lastEnd[ai] != "" {
 				why = h.lastEnd[ai]
@@ -585,18 +634,27 @@ func (h *harness) doAcq(s int, st Step) (string, *verr) {
 			}
 			return desc, newVerr("no-fresh-dial", "step %d: the request of r%d for %s did not invoke the dial function although %s; the request %s", s, r.id, addrName(ai), why, state)
 		}
-		t := h.newAttempt(ai, newInvs[0])
-		t.members = []*requester{r}
-		r.att = t
-		h.cur[ai] = t
-		switch {
-		case strings.HasPrefix(h.lastEnd[ai], "the previous connection"):
-			h.label("redial-after-close")
-		case h.lastEnd[ai] != "":
-			h.label("redial-after-failed-dial")
+		r.att = join
+		join.members = append(join.members, r)
+		if join != cur {
+			h.label("outside:join-superseded-generation")
 		}
-		if r.pre {
-			h.label("dial-started-with-cancelled-ctx")
+		if join.state == attInflight {
+			h.label("join-pending-dial")
+			h.mu.Lock()
+			if dialParked && (join.inv == nil || (join.inv.returned && join.inv.err != nil)) {
+				h.label("join-during-failing-dial")
+				h.label("join-while-dial-failure-unpublished")
+			}
+			if dialParked && join.inv != nil && join.inv.returned && join.inv.err == nil {
+				h.label("join-while-dial-success-unpublished")
+			}
+			h.mu.Unlock()
+		} else {
+			h.label("join-live-connection")
+			if h.isXclosed(join.conn) {
+				h.label("outside:join-scenario-closed-connection")
+			}
 		}
 	}
 	if parkedWait {
@@ -618,9 +676,12 @@ func (h *harness) doFin(s int, st Step) (string, *verr) {
 		return st.String() + " (skipped: no dial function is parked)", nil
 	}
 	t := cands[mod(st.I, len(cands))]
-	out := "an error"
+	out, code := "an error", outErr
 	if st.OK {
-		out = "a fresh connection"
+		out, code = "a fresh connection", outOK
+		if st.X {
+			out, code = "a connection that the dial function has closed itself", outClosed
+		}
 	}
 	desc := fmt.Sprintf("%s returns %s", h.attName(t), out)
 	if st.G {
@@ -629,7 +690,7 @@ func (h *harness) doFin(s int, st Step) (string, *verr) {
 		h.armed[pointDialResult+"|"+h.names[t.ai]] = true
 		h.mu.Unlock()
 	}
-	t.inv.ch <- st.OK
+	t.inv.ch <- code
 	synctest.Wait()
 	return desc, nil
 }
@@ -670,6 +731,14 @@ func (h *harness) doRelease(s int, st Step, pick *requester) (*requester, string
 	switch st.K {
 	case "rel":
 		desc = fmt.Sprintf("r%d releases %s", r.id, h.connName(r.conn))
+		if succ {
+			// only after a replacement: a first release that comes after the address
+			// was registered again
+			h.label("outside:release-of-superseded-generation-with-successor-registered")
+		}
+		if h.isXclosed(r.conn) {
+			h.label("outside:release-of-scenario-closed-connection")
+		}
 		others := 0
 		for _, m := range r.att.members {
 			if m != r && m.observed && m.holding {
@@ -710,7 +779,15 @@ func (h *harness) doRelease(s int, st Step, pick *requester) (*requester, string
 	if r.done == nil {
 		return r, desc, newVerr("nil-done", "step %d: %s: Connection returned a nil done func to r%d", s, desc, r.id)
 	}
-	if v := h.call(desc, r.done); v != nil {
+	if st.N > 0 && pick == nil {
+		desc += fmt.Sprintf(", from %d goroutines started together", 1+mod(st.N, 4))
+		h.label("outside:done-func-called-from-several-goroutines:" + st.K)
+	}
+	calls := 1
+	if pick == nil {
+		calls += mod(st.N, 4)
+	}
+	if v := h.callN(desc, r.done, calls); v != nil {
 		v.msg = fmt.Sprintf("step %d: %s", s, v.msg)
 		return r, desc, v
 	}
@@ -843,6 +920,9 @@ func (h *harness) settle(s int) *verr {
 		if t.inv != nil && t.inv.err == nil {
 			t.state, t.conn = attOK, t.inv.conn
 			h.label("dial-ok")
+			if h.xclosed[t.conn] {
+				h.label("outside:dial-function-handed-back-a-connection-it-closed-itself")
+			}
 			if len(t.members) >= 2 {
 				h.label("shared-dial-joined")
 				h.label("shared-dial-joined-ok")
@@ -910,7 +990,30 @@ func (h *harness) settle(s int) *verr {
 				h.label("joiner-parked-at-conn-wait-got-the-dial-error")
 			}
 		default: // attOK
+			if r.conn != nil && r.err == nil && r.conn != t.conn {
+				// it was handed a connection of this address that others still hold
+				// (possible only after a replacement): it is a holder of that one
+				for _, o := range h.atts {
+					if o.ai == r.ai && o.state == attOK && !o.forgotten && o.conn == r.conn {
+						for i, m := range t.members {
+							if m == r {
+								t.members = append(t.members[:i:i], t.members[i+1:]...)
+								break
+							}
+						}
+						o.members = append(o.members, r)
+						r.att, t = o, o
+						h.label("outside:join-superseded-generation")
+						break
+					}
+				}
+			}
 			switch {
+			case !gaveUp && r.conn == nil && r.err != nil && h.xclosed[t.conn]:
+				// a request for an address whose registered connection was closed by
+				// the scenario was answered with an error: not a hand-out
+				r.left = true
+				h.label("outside:request-for-scenario-closed-connection-answered-with-an-error")
 			case gaveUp:
 				r.left = true
 				h.label("cancelled-requester-got-error-instead-of-shared-connection")
@@ -987,8 +1090,25 @@ func (h *harness) settle(s int) *verr {
 				who = append(who, fmt.Sprintf("r%d", m.id))
 			}
 		}
-		shut := t.conn.GetState() == connectivity.Shutdown
-		if users > 0 && shut {
+		state := t.conn.GetState()
+		shut := state == connectivity.Shutdown
+		byScenario := h.xclosed[t.conn]
+		if users > 0 && !h.epi {
+			switch {
+			case byScenario:
+				h.label("outside:scenario-closed-connection-still-held")
+				if holders >= 2 {
+					h.label("outside:scenario-closed-connection-held-by-2-or-more")
+				}
+			case state != connectivity.Idle && !shut:
+				h.label("outside:held-connection-" + state.String())
+			}
+		}
+		prev := t.lastState
+		t.lastState = state
+		// a connection that the scenario itself closed is excused: the clause is
+		// about what the manager does to a connection it handed out
+		if users > 0 && shut && !byScenario {
 			return newVerr("closed-while-held", "after step %d: %s of %s is closed (state SHUTDOWN) although it was not released by %s", s, h.connName(t.conn), addrName(t.ai), strings.Join(who, ", "))
 		}
 		if holders >= 2 && !h.epi {
@@ -1008,6 +1128,12 @@ func (h *harness) settle(s int) *verr {
 			}
 			h.lastEnd[t.ai] = fmt.Sprintf("the previous connection %s was closed in step %d when its last holder released it", h.connName(t.conn), s)
 			h.label("last-release-closes")
+			switch {
+			case byScenario:
+				h.label("outside:last-release-of-scenario-closed-connection")
+			case prev != connectivity.Idle && prev != connectivity.Shutdown:
+				h.label("outside:last-release-closes-connection-in-state-" + prev.String())
+			}
 			if len(t.members) >= 2 {
 				h.label("last-release-closes-shared-connection")
 			}
@@ -1083,7 +1209,7 @@ func (h *harness) cleanup() {
 	for _, inv := range h.invs {
 		if !inv.returned {
 			select {
-			case inv.ch <- true:
+			case inv.ch <- outOK:
 			default:
 			}
 		}
@@ -1110,6 +1236,8 @@ func (h *harness) cleanup() {
 		}
 	}
 	synctest.Wait()
+	h.stopNet()
+	synctest.Wait()
 }
 
 func (h *harness) history() string {
@@ -1120,7 +1248,7 @@ func runBubble(sc *Scenario) (stats, *verr) {
 	if sc.Addrs < 1 || sc.Addrs > 1024 || sc.Threads < 1 || sc.Threads > 4096 {
 		return stats{}, newVerr("harness-error", "scenario out of range: %d addresses, %d threads", sc.Addrs, sc.Threads)
 	}
-	h := &harness{sc: sc, addrIdx: map[string]int{}, armed: map[string]bool{}, cur: make([]*attempt, sc.Addrs), lastEnd: make([]string, sc.Addrs)}
+	h := &harness{sc: sc, addrIdx: map[string]int{}, armed: map[string]bool{}, xclosed: map[*grpc.ClientConn]bool{}, cur: make([]*attempt, sc.Addrs), lastEnd: make([]string, sc.Addrs)}
 	var distinct bool
 	if h.names, distinct = addrTable(sc.Names, sc.Addrs); !distinct {
 		return stats{}, newVerr("harness-error", "the address spellings of the scenario are not pairwise different after case folding: this part decides nothing about such spellings")
